@@ -127,6 +127,9 @@ package types
 //@   safety[C02]
 //@   ensures[C02] within(result0.bytes, b) && result0.table.data <= len(result0.bytes) && within(result0.table.table, result0.bytes)
 //@   noalloc[C17]
+//@   let vs = valueSize(mem(b), lo(b), hi(b))
+//@   ensures[C13] result1 == nil && len(b) > 0 ==> result0.bytes == b[len(b)-vs:] && obj(result0.table.table) == obj(b) && lo(result0.table.table) == tTab(mem(b), lo(b), hi(b)) && len(result0.table.table) == tTS(mem(b), lo(b), hi(b)) && result0.table.data == tDS(mem(b), lo(b), hi(b)) && (result0.table.big <==> b[len(b)-1] == 81) && (b[len(b)-1] == 80 || b[len(b)-1] == 81)
+//@   ensures[C01,C13] len(b) > 0 && (b[len(b)-1] == 80 || b[len(b)-1] == 81) && vs > 0 && tTS(mem(b), lo(b), hi(b)) % ite(b[len(b)-1] == 81, 6, 3) == 0 ==> result1 == nil
 
 //@ func ParseMessage
 //@   safety[C02]
